@@ -237,9 +237,13 @@ func NewPipestance(parent Nodable, call *syntax.CallGraphPipeline, srcPaths []st
 
 	// Add preflight dependencies if preflight stages exist.
 	for _, preflightNode := range preflightNodes {
+		// The nodes which the preflight stage itself depends on (which is
+		// possible when one of its inputs refers to the output of another
+		// call from inside an array or map) must not wait for it.
+		producers := preflightNode.getNode().allPrenodes(nil)
 		for _, subnode := range self.node.subnodes {
 			if !subnode.getNode().call.Call().Modifiers.Preflight {
-				subnode.getNode().setPrenode(preflightNode)
+				subnode.getNode().setPreflightPrenode(preflightNode, producers)
 			}
 		}
 	}
